@@ -443,7 +443,11 @@ func (g *G) urlFor(res int, respell bool) string {
 	if !respell {
 		return "http://" + host + path
 	}
-	switch g.intn(7) {
+	switch g.intn(9) {
+	case 7:
+		return "http://" + host + "/q/%2E%2E" + path
+	case 8:
+		return "http://" + host + "/%2e" + path
 	case 0:
 		return "http://" + strings.ToUpper(host) + path
 	case 1:
